@@ -211,11 +211,17 @@ type peer struct {
 	cancel context.CancelFunc
 }
 
-func newPeer(name string, g *group) *peer {
+func listenUDP() *net.UDPConn {
 	udp, err := net.ListenUDP("udp4", &net.UDPAddr{IP: net.ParseIP("127.0.0.1")})
 	if err != nil {
 		panic(err)
 	}
+	return udp
+}
+
+func newPeer(name string, g *group) *peer { return newPeerOn(name, g, listenUDP()) }
+
+func newPeerOn(name string, g *group, udp *net.UDPConn) *peer {
 	hc := &holdConn{PacketConn: udp}
 	tr := &quic.Transport{Conn: hc}
 	mux, err := overlay.NewMux(tr)
